@@ -341,6 +341,9 @@ def check_holders(ctx, unit, classes):
              "destructors leave the storage empty", len(classes))
     ctx.rule("O6.assignment-engagement", "after assignment the destination is engaged exactly when the source was; emplace "
              "ends engaged", 4)
+    ctx.rule("O6.source-read-before-destroy", "an assignment operator that takes its source by reference never destroys the "
+             "held object (directly, or through emplace()/reset helpers) before it has finished reading the source: the "
+             "source may be *this or live inside the held value", 3)
     ctx.rule("D.dispatch-reachable", "no public member enters a tag-dispatch chain (destruct_/assign_/copy_/move_construct_) "
              "in a state for which every path ends in the chain's terminal assertion", 1)
     ctx.rule("O6.accessor-guarded", "value accessors trap instead of returning when nothing is stored", 4)
@@ -389,6 +392,60 @@ def check_holders(ctx, unit, classes):
                     if f.name in CONFIG[cls]["acc"] and f.name not in ("access_", "_object") and st[0] == "N":
                         ctx.inst("O6.accessor-guarded", "%s%s" % (f.sig, " const" if f.get("const") else ""), not res, f.loc,
                                  "entered empty: %s" % ("traps" if not res else "returns a reference to storage that holds no object"), f)
+            # aliasing: an assignment that takes its source by reference must not destroy the held object before it has
+            # read the source (x = x, or x = *x->next where the source lives inside the held value)
+            def own_dtor_events(fn):
+                out = []
+                for n in fn.events():
+                    o = is_dtor_call(n)
+                    if o is not None and H.storage_owner(fn, o) == "this":
+                        out.append(n)
+                return out
+            destroyers = {fn.did for fn in H.fns if own_dtor_events(fn) and fn.kind != "dtor"}
+            grew = True
+            while grew:
+                grew = False
+                for fn in H.fns:
+                    if fn.did in destroyers or fn.kind == "dtor":
+                        continue
+                    for n in fn.events():
+                        if n.is_call() and n.callee and n.callee.get("did") in destroyers and n.kind == "CXXMemberCallExpr" \
+                                and path(n.child("obj")) == ("this",):
+                            destroyers.add(fn.did)
+                            grew = True
+                            break
+            for f in H.fns:
+                if f.name != "operator=" or not f.params():
+                    continue
+                p0 = f.params()[0]
+                if (p0.get("rt") or "") not in CONFIG or not p0["t"].rstrip().endswith("&"):
+                    continue           # by-value source: a private copy, cannot alias
+                bad = []
+                dts = own_dtor_events(f)
+                dts += [n for n in f.events() if n.is_call() and n.callee and n.callee.get("did") in destroyers and n.kind == "CXXMemberCallExpr"
+                        and path(n.child("obj")) == ("this",)]
+                reads = [n for n in f.events() if n.is_call() and H.storage_owner(f, n) == "other"]
+                reads += [n for n in f.events() if n.kind == "MemberExpr" and H.storage_owner(f, n) == "other"]
+                for d_ in dts:
+                    for r_ in reads:
+                        if f.reaches(d_.id, r_.id):
+                            bad.append("the held object is destroyed at %s and the source is read afterwards at %s" % (d_.loc, r_.loc))
+                for n in f.events():
+                    if n.is_call() and n.callee and n.callee.get("did") in destroyers and n.kind == "CXXMemberCallExpr" \
+                            and path(n.child("obj")) == ("this",):
+                        callee = H.by_did.get(n.callee["did"])
+                        cps = callee.params() if callee is not None else []
+                        for a_, cp_ in zip(n.args, cps):
+                            if H.storage_owner(f, a_) == "other" and cp_["t"].rstrip().endswith("&"):
+                                bad.append("%s(...) at %s receives a reference into the source and destroys the held object before "
+                                           "constructing from it" % (n.callee["n"], n.loc))
+                        # a reference to the whole source handed on likewise
+                        for a_, cp_ in zip(n.args, cps):
+                            x_ = std_unwrap(a_)
+                            if x_.kind == "DeclRefExpr" and x_.d["d"] == p0["d"] and cp_["t"].rstrip().endswith("&") and callee.name != "operator=":
+                                bad.append("%s(other) at %s may destroy the held object before reading other" % (n.callee["n"], n.loc))
+                ctx.inst("O6.source-read-before-destroy", "%s" % f.sig, not bad, f.loc,
+                         "; ".join(sorted(set(bad))[:2]) if bad else "no path destroys the held object before the (possibly aliasing) source was read", f)
             # collect violations
             cd = [v for k, v in H.violations.items() if len(k) == 2]
             tc = [v for k, v in H.violations.items() if len(k) == 3]
